@@ -59,10 +59,21 @@ UNITS.append(T("tp7_gen_jerk", ["a_trajpoly7_gen"], level="B", bound="exact doma
 # end-time identities: the back end has to enumerate the exact domain (SAT, ~7 ms per combination), so the domain is
 # 9^4 (cubic), 3^6 (quintic; 5^6 in the thorough tier), 3^8 (septic; ts = 1 and 4 in the thorough tier)
 def FIN(n, ts, dm, **kw):
-    return T("tp%d_final_ts%d%s" % (n, ts, kw.pop("tag", "")), ["a_trajpoly%d_gen" % n, "a_trajpoly%d_pos" % n, "a_trajpoly%d_vel" % n, "a_trajpoly%d_acc" % n] + (["a_trajpoly7_jer"] if n == 7 else []),
+    return T(("tp%d_final_ts%d%s" % (n, ts, kw.pop("tag", ""))).replace("ts0_", "ts"), ["a_trajpoly%d_gen" % n, "a_trajpoly%d_pos" % n, "a_trajpoly%d_vel" % n, "a_trajpoly%d_acc" % n] + (["a_trajpoly7_jer"] if n == 7 else []),
              entry="h_tp%d_final" % n, level="B", solver=None, split=(8 if n == 7 else 4),
              bound="exact domain: ts = %d, integer boundary data |x| <= %d%s" % (ts, dm, " (jerks 3x)" if n == 7 else ""),
              defines=["TS=%d" % ts, "DM=%d" % dm], key=["at the end time"], min_obl=2, **kw)
+# durations many orders of magnitude away from 1 (property: "for positive durations over many orders of magnitude"): ts = 2^-60 / 2^60
+# with the boundary derivatives scaled by powers of 1/ts, which keeps the domain exact (round-3 seed C15-4: a duration guard with a wrong threshold)
+def FINS(n, e, dm, **kw):
+    u = FIN(n, 0, dm, tag="_2e%+d" % e, **kw)
+    u.defines = ["TS=0x1p%d" % e, "DM=%d" % dm, "TSCALE"]
+    u.bound = "exact domain: ts = 2^%d, integer boundary data |x| <= %d scaled by powers of 1/ts%s" % (e, dm, " (jerks 3x)" if n == 7 else "")
+    return u
+for e in (-60, 60):
+    UNITS.append(FINS(3, e, 4, timeout=300))
+    UNITS.append(FINS(5, e, 1, timeout=300))
+    UNITS.append(FINS(7, e, 1, timeout=900, cost=200, **({} if e == -60 else {"tiers": ("thorough",)})))
 for ts in (1, 2, 4):
     UNITS.append(FIN(3, ts, 4, timeout=300))
     UNITS.append(FIN(5, ts, 1, timeout=300))
